@@ -38,14 +38,16 @@ theorem sp_ip_cells (c : Ctx) :
 theorem widens_iff (c : Ctx) : widens c = (regBits c == 32) ∧ (regBits c = 32 ∨ regBits c = 64) := by
   cases c <;> decide +kernel
 
+/-- for the list-shaped validity rules (every context but SPARC): the names whose presence in the
+    set makes `n` valid are exactly the table names of the same cell. (The SPARC rule compares
+    canonical names; it is covered by `known_alias_iff` instead — `isValid_some_sameReg`.) -/
 theorem known_valid_names (c : Ctx) :
     (knownNames c).all (fun n => (knownNames c).all fun m =>
-      !aliasScope c m || ((validNames c n).contains m == sameReg c n m)) = true := by
+      isCanonRule c || ((validNames c n).contains m == sameReg c n m)) = true := by
   cases c <;> decide +kernel
 
-/-- validNames never leaves the table -/
-theorem known_valid_names_known (c : Ctx) :
-    (knownNames c).all (fun n => (validNames c n).all fun a => (knownNames c).contains a && aliasScope c a || a == n) = true := by
-  cases c <;> decide +kernel
+/-- the tables are those of a successful translation of the current source (a failed translation
+    writes blank tables with `translationOk := false`) -/
+theorem translation_ok : translationOk = true := by decide
 
 end MdModel.Regs
